@@ -63,7 +63,9 @@ func (it *Iterator) SeekToFirst() {
 	it.restartIdx = 0
 	it.initialized = true
 
-	key, val, ok := it.decodeCurrent()
+	// decodeNext leaves currentPos behind the entry it returns, which is where
+	// Next continues; decodeCurrent would make Next return this entry again
+	key, val, ok := it.decodeNext()
 	if ok {
 		it.currentKey = key
 		it.currentVal = val
@@ -88,7 +90,7 @@ func (it *Iterator) SeekToLast() {
 	it.initialized = true
 
 	// Skip forward to the last entry
-	key, val, ok := it.decodeCurrent()
+	key, val, ok := it.decodeNext()
 	if !ok {
 		it.currentKey = nil
 		it.currentVal = nil
